@@ -51,6 +51,9 @@ def tasks(tier):
         ts.append(("prescribed values dim=%d" % dim, "run_included", dict(modname="c08", fname="run_partition", kwargs=dict(dim=dim), oid="C09.O5", select_oid="C08.O4",
                                                                        why="the patch test prescribes u = (H - 1) X point by point: ext0 must list each boundary value at the position of its unknown, whatever the memory layout of the value array")))
     ts.append(("characteristic curve", "run_curve_job", {}))
+    # CharacteristicCurve(items=...) sums item.results.force: what an item reports after the residual evaluation has to be its contribution to it
+    ts.append(("item forces summed by the curve", "run_included", dict(modname="c01_items", fname="run_multiplier", kwargs={}, oid="C09.O6", select_oid="C01.O8",
+                                                                      why="the force recorded by CharacteristicCurve(items=...) is the sum of item.results.force: an item with a multiplier (external loads carry -1) has to report the multiplied force")))
     # a displacement patch test prescribes every boundary unknown; on a mesh without interior points no unknown is free
     ts.append(("partitioned solve, degenerate partitions", "run_included", dict(modname="c07", fname="run_partition_edges", kwargs={}, oid="C09.O4",
                                                                              why="the patch test on a mesh without interior points has no free unknown: the solve must still set the prescribed increments")))
